@@ -96,9 +96,9 @@ def main():
             cmpr = c08.Comparer(())
             if g[1][0] != res:
                 cmpr.add("step|%s" % st["op"], res, g[1][0])
-            for (spec, keys, protos, wj), rec, gg in zip(plan, recs, g[1][1]):
+            for (spec, keys, protos, mode), rec, gg in zip(plan, recs, g[1][1]):
                 n_obs += len(gg)
-                cmpr.target(model, spec, keys, protos, wj, rec, gg)
+                cmpr.target(model, spec, keys, protos, mode, (rec, rec), gg)
             for b in cmpr.bad:
                 sigs[b[0]] = sigs.get(b[0], 0) + 1
                 if len(bad) < 12:
